@@ -164,9 +164,13 @@ func (area) Run(c *core.Ctx) error {
 		}
 		r := c.Rng(i)
 		c.Begin(i)
-		if i%2 == 0 {
+		switch {
+		case i < len(scripts):
+			c.Branch("scripted")
+			machineRun(c, r, scripts[i])
+		case i%2 == 0:
 			pureCase(c, r)
-		} else {
+		default:
 			machineCase(c, r)
 		}
 	}
@@ -177,14 +181,26 @@ func (area) Run(c *core.Ctx) error {
 // and with the random start (oracle only).
 func pureCase(c *core.Ctx, r *rand.Rand) {
 	n := 1 + r.Intn(12)
+	maxShards := 40
+	if c.Tier == "thorough" && r.Intn(3) == 0 { // larger clusters, many wrap-arounds of the shift
+		n = 1 + r.Intn(40)
+		maxShards = 250
+	}
 	nodes := distinctNodes(r, n)
-	numShards := r.Intn(45) - 2
-	rf := r.Intn(n+3) - 1
-	if r.Intn(4) != 0 { // mostly valid
-		if numShards <= 0 {
-			numShards = 1 + r.Intn(40)
+	numShards := 1 + r.Intn(maxShards)
+	rf := 1 + r.Intn(n)
+	if r.Intn(4) == 0 { // a quarter malformed: one of the three rejected shapes (or a mix)
+		switch r.Intn(4) {
+		case 0:
+			numShards = -r.Intn(3)
+		case 1:
+			rf = -r.Intn(3)
+		case 2:
+			rf = n + 1 + r.Intn(3)
+		default:
+			numShards = r.Intn(5) - 2
+			rf = r.Intn(n+3) - 1
 		}
-		rf = 1 + r.Intn(n)
 	}
 	start := r.Intn(n + 3)
 	startShard := 0
@@ -309,6 +325,17 @@ func (m *machine) dump() string {
 // oracle: the C18 statement on the implementation's state.
 func (m *machine) oracle(c *core.Ctx, after string) {
 	st := m.mgr.GetStorageState()
+	// "alive" is what the start-up / failure events say (m.live); LiveNodes must agree with it
+	for id := range st.LiveNodes {
+		if !m.live[int(id)] {
+			c.Fail("live-nodes-not-event-history", fmt.Sprintf("after %q: node %d is in LiveNodes but its last event was a failure (or none)", after, id))
+		}
+	}
+	for id := range m.live {
+		if _, ok := st.LiveNodes[models.NodeID(id)]; !ok {
+			c.Fail("live-nodes-not-event-history", fmt.Sprintf("after %q: node %d started but is not in LiveNodes", after, id))
+		}
+	}
 	for name, ss := range st.ShardStates {
 		asg := st.ShardAssignments[name]
 		for id, s := range ss {
@@ -318,7 +345,7 @@ func (m *machine) oracle(c *core.Ctx, after string) {
 			}
 			alive := false
 			for _, rp := range replicas {
-				if _, ok := st.LiveNodes[rp]; ok {
+				if m.live[int(rp)] {
 					alive = true
 				}
 			}
@@ -327,7 +354,7 @@ func (m *machine) oracle(c *core.Ctx, after string) {
 				c.Fail("online-iff-alive-replica", fmt.Sprintf("after %q: %s shard %d state=%d but alive-replica=%v", after, name, id, s.State, alive))
 			}
 			if online {
-				_, leaderAlive := st.LiveNodes[s.Leader]
+				leaderAlive := s.Leader >= 0 && m.live[int(s.Leader)]
 				isReplica := false
 				for _, rp := range replicas {
 					if rp == s.Leader {
@@ -352,46 +379,129 @@ func (m *machine) event(c *core.Ctx, op string, ev *discovery.Event) {
 	m.oracle(c, op)
 }
 
+// evStep is one scheduled event of a state-machine case.
+type evStep struct {
+	kind    string // up | down | cfg | drop
+	a, b, c int    // up/down: node id; cfg: db, shards (create) or extra shards (grow), replica factor; drop: db
+}
+
+// scripts are fixed scenarios that run on every seed as the first cases: repeated start-up of a
+// live node, failure of a node that is not live, failure of a leader with / without a surviving
+// replica, restart of the only replica, grow after churn, drop and re-create.
+var scripts = [][]evStep{
+	{{"up", 1, 0, 0}, {"up", 2, 0, 0}, {"up", 1, 0, 0}, {"down", 7, 0, 0}, {"cfg", 0, 4, 2}, {"up", 2, 0, 0},
+		{"down", 1, 0, 0}, {"down", 1, 0, 0}, {"down", 2, 0, 0}, {"up", 2, 0, 0}, {"up", 2, 0, 0}, {"up", 1, 0, 0},
+		{"cfg", 0, 3, 2}, {"down", 2, 0, 0}, {"drop", 0, 0, 0}, {"down", 1, 0, 0}, {"cfg", 0, 2, 1}, {"up", 1, 0, 0}, {"cfg", 0, 0, 1}},
+	{{"up", 0, 0, 0}, {"up", 3, 0, 0}, {"up", 5, 0, 0}, {"cfg", 1, 6, 3}, {"cfg", 2, 5, 1}, {"down", 3, 0, 0}, {"down", 0, 0, 0},
+		{"down", 5, 0, 0}, {"down", 5, 0, 0}, {"up", 4, 0, 0}, {"up", 3, 0, 0}, {"cfg", 1, 2, 3}, {"up", 0, 0, 0}, {"up", 5, 0, 0},
+		{"cfg", 1, 3, 3}, {"down", 0, 0, 0}, {"up", 0, 0, 0}, {"drop", 2, 0, 0}, {"drop", 2, 0, 0}, {"down", 3, 0, 0}},
+	{{"cfg", 0, 3, 1}, {"down", 0, 0, 0}, {"up", 0, 0, 0}, {"cfg", 0, 0, 1}, {"down", 0, 0, 0}, {"up", 1, 0, 0}, {"cfg", 0, 2, 1},
+		{"up", 0, 0, 0}, {"down", 1, 0, 0}, {"cfg", 1, 2, 3}, {"up", 1, 0, 0}, {"up", 2, 0, 0}, {"cfg", 1, 0, 3}, {"down", 1, 0, 0}},
+}
+
 func machineCase(c *core.Ctx, r *rand.Rand) {
+	nNodes := 2 + r.Intn(5)
+	steps := 8 + r.Intn(25)
+	maxRF, maxShards, nDB := 3, 6, 3
+	if c.Tier == "thorough" {
+		steps = 10 + r.Intn(60)
+		if r.Intn(3) == 0 { // larger clusters
+			nNodes = 6 + r.Intn(10)
+			maxRF, maxShards = 5, 14
+		}
+	}
+	// the generator keeps its own picture of the live set only to bias choices (repeated start-up,
+	// failure of a dead node); the events themselves are unconstrained
+	live := map[int]bool{}
+	pick := func(wantLive bool) int {
+		var cand []int
+		for id := 0; id < nNodes; id++ {
+			if live[id] == wantLive {
+				cand = append(cand, id)
+			}
+		}
+		if len(cand) == 0 || r.Intn(4) == 0 {
+			return r.Intn(nNodes)
+		}
+		return cand[r.Intn(len(cand))]
+	}
+	var evs []evStep
+	if r.Intn(5) != 0 { // mostly: a cluster that is (partly) up before the churn starts
+		for id := 0; id < nNodes; id++ {
+			if r.Intn(4) != 0 {
+				live[id] = true
+				evs = append(evs, evStep{"up", id, 0, 0})
+			}
+		}
+	}
+	for s := 0; s < steps; s++ {
+		k := r.Intn(10)
+		switch {
+		case k < 3:
+			id := pick(r.Intn(4) == 0) // one in four: a node that is already live
+			live[id] = true
+			evs = append(evs, evStep{"up", id, 0, 0})
+		case k < 6:
+			id := pick(r.Intn(4) != 0) // one in four: a node that is not live
+			delete(live, id)
+			evs = append(evs, evStep{"down", id, 0, 0})
+		case k < 9:
+			evs = append(evs, evStep{"cfg", r.Intn(nDB), 1 + r.Intn(maxShards), 1 + r.Intn(maxRF)})
+		default:
+			evs = append(evs, evStep{"drop", r.Intn(nDB), 0, 0})
+		}
+	}
+	machineRun(c, r, evs)
+}
+
+// machineRun feeds the events into a fresh real stateManager (in-memory repo) one by one.
+// For "cfg": an unknown db is created with b shards and replica factor c; a known db grows by
+// b%4 shards (0 = re-trigger of the unchanged assignment).
+func machineRun(c *core.Ctx, _ *rand.Rand, evs []evStep) {
 	ctx, cancel := context.WithCancel(context.Background())
 	defer cancel()
 	repo := &memRepo{kv: map[string][]byte{}}
 	m := &machine{repo: repo, mgr: master.NewStateManager(ctx, repo, nil), live: map[int]bool{}, dbs: map[int]*models.Database{}}
 	defer m.mgr.Close()
 	c.Op("reset", "ok")
-	nNodes := 2 + r.Intn(5)
-	steps := 8 + r.Intn(25)
-	if c.Tier == "thorough" {
-		steps = 10 + r.Intn(60)
-	}
-	for s := 0; s < steps; s++ {
-		k := r.Intn(10)
-		switch {
-		case k < 3: // node up
-			id := r.Intn(nNodes)
+	for _, e := range evs {
+		switch e.kind {
+		case "up":
+			id := e.a
 			node := models.StatefulNode{ID: models.NodeID(id)}
 			node.HostIP = "10.0.0." + strconv.Itoa(id)
 			data, _ := json.Marshal(&node)
 			key := constants.GetStorageLiveNodePath(strconv.Itoa(id))
 			repo.kv[key] = data
+			if m.live[id] {
+				c.Branch("ev-up-already-live")
+			} else {
+				c.Branch("ev-up")
+			}
 			m.live[id] = true
-			c.Branch("ev-up")
 			m.event(c, fmt.Sprintf("up %d", id), &discovery.Event{Type: discovery.NodeStartup, Key: key, Value: data})
-		case k < 6: // node down
-			id := r.Intn(nNodes)
+		case "down":
+			id := e.a
 			key := constants.GetStorageLiveNodePath(strconv.Itoa(id))
 			delete(repo.kv, key)
+			switch {
+			case !m.live[id]:
+				c.Branch("ev-down-not-live")
+			case m.leads(id):
+				c.Branch("ev-down-leader")
+			default:
+				c.Branch("ev-down")
+			}
 			delete(m.live, id)
-			c.Branch("ev-down")
 			m.event(c, fmt.Sprintf("down %d", id), &discovery.Event{Type: discovery.NodeFailure, Key: key})
-		case k < 9: // create database / grow shards
-			d := r.Intn(3)
+		case "cfg": // create database / grow shards
+			d := e.a
 			cfg, ok := m.dbs[d]
 			if !ok {
-				cfg = &models.Database{Name: dbName(d), NumOfShard: 1 + r.Intn(6), ReplicaFactor: 1 + r.Intn(3)}
+				cfg = &models.Database{Name: dbName(d), NumOfShard: e.b, ReplicaFactor: e.c}
 				c.Branch("ev-create-db")
 			} else {
-				cfg = &models.Database{Name: cfg.Name, NumOfShard: cfg.NumOfShard + r.Intn(4), ReplicaFactor: cfg.ReplicaFactor}
+				cfg = &models.Database{Name: cfg.Name, NumOfShard: cfg.NumOfShard + e.b%4, ReplicaFactor: cfg.ReplicaFactor}
 				c.Branch("ev-grow-db")
 			}
 			data, _ := json.Marshal(cfg)
@@ -402,7 +512,6 @@ func machineCase(c *core.Ctx, r *rand.Rand) {
 				_ = json.Unmarshal(b, before)
 			}
 			oldRaw := string(repo.kv[asgKey])
-			delete(repo.kv, "verif-touched")
 			m.dbs[d] = cfg
 			liveNow := m.liveIDs()
 			m.event(c, fmt.Sprintf("dbcfg %d", d), &discovery.Event{Type: discovery.DatabaseConfigChanged,
@@ -423,18 +532,19 @@ func machineCase(c *core.Ctx, r *rand.Rand) {
 								c.Fail("grow-moved-existing", fmt.Sprintf("db %d shard %d moved", d, id))
 							}
 						}
+						c.Branch("ev-grow-assigned")
 					}
 					checkAssignment(c, fmt.Sprintf("dbcfg %d", d), asg, liveNow, cfg.ReplicaFactor, lo, len(asg.Shards))
 					c.NonTrivial()
 				}
 				m.event(c, fmt.Sprintf("asg %d %s", d, showAsg(asg)), &discovery.Event{Type: discovery.ShardAssignmentChanged, Key: asgKey, Value: raw})
 			} else {
-				// creation failed (no live node / rf too large): forget the cfg on the harness side too? The
-				// manager keeps it in m.databases (it is set before the attempt), so keep it.
+				// creation failed (no live node / rf too large): the manager keeps the cfg in
+				// m.databases (it is set before the attempt), so the harness keeps it too.
 				c.Branch("ev-create-failed")
 			}
-		default: // drop database
-			d := r.Intn(3)
+		case "drop":
+			d := e.a
 			name := dbName(d)
 			delete(repo.kv, constants.GetDatabaseAssignPath(name))
 			_, known := m.dbs[d]
@@ -447,6 +557,18 @@ func machineCase(c *core.Ctx, r *rand.Rand) {
 			m.event(c, fmt.Sprintf("dropdb %d", d), &discovery.Event{Type: discovery.DatabaseConfigDeletion, Key: constants.GetDatabaseConfigPath(name)})
 		}
 	}
+}
+
+// leads reports whether node id currently leads at least one shard.
+func (m *machine) leads(id int) bool {
+	for _, ss := range m.mgr.GetStorageState().ShardStates {
+		for _, s := range ss {
+			if s.State == models.OnlineShard && int(s.Leader) == id {
+				return true
+			}
+		}
+	}
+	return false
 }
 
 func (m *machine) liveIDs() []models.NodeID {
